@@ -200,29 +200,28 @@ struct default_color_converter_impl<rgb_t, cmyk_t>
 /// \ingroup ColorConvert
 /// \brief CMYK to RGB (not the fastest code in the world)
 ///
-/// r = 1 - min(1, c*(1-k)+k)
-/// g = 1 - min(1, m*(1-k)+k)
-/// b = 1 - min(1, y*(1-k)+k)
+/// r = 1 - min(1, c*(1-k)+k) = (1-c)*(1-k)
+/// g = 1 - min(1, m*(1-k)+k) = (1-m)*(1-k)
+/// b = 1 - min(1, y*(1-k)+k) = (1-y)*(1-k)
+///
+/// The product form uses only channel_invert and channel_multiply, which know the range of the
+/// channel. Adding the black channel to c*(1-k) as a plain number is wrong for signed channels
+/// (the zero of an int8_t channel is -128: white came out as mid-gray) and overflows for int32_t.
 template <>
 struct default_color_converter_impl<cmyk_t,rgb_t> {
     template <typename P1, typename P2>
     void operator()(const P1& src, P2& dst) const {
         using T1 = typename channel_type<P1>::type;
+        T1 const not_black = channel_invert(get_color(src,black_t()));
         get_color(dst,red_t())  =
             channel_convert<typename color_element_type<P2,red_t>::type>(
-                channel_invert<T1>(
-                    (std::min)(channel_traits<T1>::max_value(),
-                             T1(channel_multiply(get_color(src,cyan_t()),channel_invert(get_color(src,black_t())))+get_color(src,black_t())))));
+                T1(channel_multiply(channel_invert(get_color(src,cyan_t())), not_black)));
         get_color(dst,green_t())=
             channel_convert<typename color_element_type<P2,green_t>::type>(
-                channel_invert<T1>(
-                    (std::min)(channel_traits<T1>::max_value(),
-                             T1(channel_multiply(get_color(src,magenta_t()),channel_invert(get_color(src,black_t())))+get_color(src,black_t())))));
+                T1(channel_multiply(channel_invert(get_color(src,magenta_t())), not_black)));
         get_color(dst,blue_t()) =
             channel_convert<typename color_element_type<P2,blue_t>::type>(
-                channel_invert<T1>(
-                    (std::min)(channel_traits<T1>::max_value(),
-                             T1(channel_multiply(get_color(src,yellow_t()),channel_invert(get_color(src,black_t())))+get_color(src,black_t())))));
+                T1(channel_multiply(channel_invert(get_color(src,yellow_t())), not_black)));
     }
 };
 
